@@ -14,9 +14,9 @@
 import ast
 import re
 
-from sa.interp import alpha, Interp, Scenario, Sym, Const, Bytes, render, render_items, merge_consts
+from sa.interp import alpha, expand_bound, Interp, Scenario, Sym, Const, Bytes, render, render_items, merge_consts
 from sa.loader import AnalysisError, dotted
-from sa.cfg import CFG, calls_in
+from sa.cfg import CFG, calls_in, own_exprs
 from sa import guards, codec, keyaction, tables
 from rules import C12
 
@@ -46,70 +46,219 @@ def run(rep, prog, tier):
 
 
 # ------------------------------------------------------------------------------------------------ C06.1
+def _elements(text, backing):
+    """The elements an iteration source denotes, as a set of atoms ('one', x) / ('all', coll), from the interpreter's value text:
+    chain(a, b), a + b, [x, *c], list(c) / tuple(c) / iter(c) are all the same collection.  A property that only returns an
+    attribute is that attribute (self.subkeys == self._children).  None when the text is not understood."""
+    try:
+        e = ast.parse(text, mode='eval').body
+    except SyntaxError:
+        return None
+
+    def norm(n):
+        t = ast.unparse(n)
+        for prop, attr in backing.items():
+            t = re.sub(r'(?<![\w.])%s(?![\w])' % re.escape(prop), attr, t)
+        return t
+
+    def rec(n):
+        if isinstance(n, ast.Call) and not n.keywords:
+            fn = dotted(n.func) or ''
+            if fn in ('itertools.chain', 'chain'):
+                out = set()
+                for a in n.args:
+                    if isinstance(a, ast.Starred):
+                        return None
+                    r = rec(a)
+                    if r is None:
+                        return None
+                    out |= r
+                return out
+            if fn in ('list', 'tuple', 'iter') and len(n.args) == 1:
+                return rec(n.args[0])
+        if isinstance(n, (ast.List, ast.Tuple)):
+            out = set()
+            for x in n.elts:
+                if isinstance(x, ast.Starred):
+                    r = rec(x.value)
+                    if r is None:
+                        return None
+                    out |= r
+                else:
+                    out.add(('one', norm(x)))
+            return out
+        if isinstance(n, ast.BinOp) and isinstance(n.op, ast.Add):
+            l, r = rec(n.left), rec(n.right)
+            return None if l is None or r is None else l | r
+        if isinstance(n, (ast.Attribute, ast.Name, ast.Call, ast.Subscript)):
+            return {('all', norm(n))}
+        return None
+    return rec(e)
+
+
+def _property_backing(ci, first):
+    """{'self.subkeys': 'self._children', ...} for the properties of ci whose getter only returns an attribute."""
+    out = {}
+    for c in ci.mro():
+        for name, pp in c.plain_props.items():
+            g = pp.get('get')
+            if g is None or 'set' in pp:
+                continue
+            body = [st for st in g.node.body if not (isinstance(st, ast.Expr) and isinstance(st.value, ast.Constant))]
+            if len(body) == 1 and isinstance(body[0], ast.Return) and isinstance(body[0].value, ast.Attribute) and \
+                    isinstance(body[0].value.value, ast.Name) and body[0].value.value.id == g.params[0]:
+                out.setdefault('%s.%s' % (first, name), '%s.%s' % (first, body[0].value.attr))
+    return out
+
+
+def method_calls_over(prog, fi, states, meth, recv_tail):
+    """Calls `<key><recv_tail>.<meth>(...)` made by fi (on any path), each with the set of keys it is made for:
+    -> list of (ast.Call node, atoms or None, arg texts, receiver text)."""
+    first = fi.params[0]
+    backing = _property_backing(fi.cls, first) if fi.cls is not None else {}
+    seen, out = set(), []
+    for s in states:
+        for ft, args, kw, line, node in s.calls:
+            if not ft.endswith('.' + meth) or id(node) in seen:
+                continue
+            recv = ft[:-len(meth) - 1]
+            seen.add(id(node))
+            atoms = None
+            if recv.endswith(recv_tail):
+                key = recv[:len(recv) - len(recv_tail)] if recv_tail else recv
+                if key in s.bound:
+                    atoms = _elements(s.bound[key], backing)
+                elif re.match(r'^[A-Za-z_][\w.]*$', key):
+                    atoms = {('one', key)}
+            out.append((node, atoms, list(args) + ['%s=%s' % kv for kv in sorted(kw.items())], recv))
+    return out
+
+
+def _whole_key(fi):
+    first = fi.params[0]
+    backing = _property_backing(fi.cls, first)
+    return {('one', first), ('all', '%s.values()' % backing.get('%s.subkeys' % first, '%s.subkeys' % first))}
+
+
+def _one_shot_reuse(fi):
+    """Local names bound to a one-shot iterator (chain(...), iter(...), map / filter / zip, a generator expression) that are used
+    as an iteration source more than once: the second loop sees nothing."""
+    bad = []
+    srcs = {}
+    for n in ast.walk(fi.node):
+        it = n.iter if isinstance(n, (ast.For, ast.comprehension)) else None
+        if isinstance(it, ast.Name):
+            srcs[it.id] = srcs.get(it.id, 0) + 1
+    for n in ast.walk(fi.node):
+        if isinstance(n, ast.Assign) and len(n.targets) == 1 and isinstance(n.targets[0], ast.Name) and srcs.get(n.targets[0].id, 0) > 1:
+            v = n.value
+            if isinstance(v, ast.GeneratorExp) or (isinstance(v, ast.Call) and (dotted(v.func) or '').split('.')[-1] in
+                                                   ('chain', 'iter', 'map', 'filter', 'zip', 'reversed', 'islice', 'from_iterable')):
+                bad.append((n.targets[0].id, n.lineno))
+    return bad
+
+
+def _stmt_nodes_of(g, callnode):
+    """CFG nodes (all copies: finally bodies are duplicated per way out) whose own expressions contain the call."""
+    out = []
+    for n in g.nodes:
+        if n.ast is None:
+            continue
+        for e in own_exprs(n.ast):
+            if any(x is callnode for x in ast.walk(e)):
+                out.append(n)
+                break
+    return out
+
+
 def check_unlock(rep, prog):
     fi = prog.method('pgpy.pgp', 'PGPKey', 'unlock')
     rep.saw(fn=fi)
+    first = fi.params[0]
+    pw = fi.params[1] if len(fi.params) > 1 else 'passphrase'
+    states = Interp(prog, Scenario(inline=noinline)).run(fi)
+    unp_calls = method_calls_over(prog, fi, states, 'unprotect', '._key')
+    dk = method_calls_over(prog, fi, states, 'decrypt_keyblob', '._key.keymaterial')
+    clr_calls = method_calls_over(prog, fi, states, 'clear', '._key.keymaterial')
+    if not unp_calls and not dk:
+        raise AnalysisError('PGPKey.unlock no longer calls unprotect')
+    unp_calls = unp_calls + dk
+    risky_calls = set(id(c[0]) for c in unp_calls)
 
     def risky(st):
-        t = ast.unparse(st)
-        return '.unprotect(' in t or 'decrypt_keyblob(' in t or any(isinstance(n, (ast.Yield, ast.YieldFrom)) for n in ast.walk(st))
+        return any(id(n) in risky_calls for n in ast.walk(st)) or any(isinstance(n, (ast.Yield, ast.YieldFrom)) for n in ast.walk(st))
     g = CFG(fi.node, raising=risky)
-    unp = [n for n in g.nodes if n.kind == 'stmt' and n.ast is not None and '.unprotect(' in ast.unparse(n.ast)]
-    clr = [n for n in g.nodes if n.kind == 'stmt' and n.ast is not None and re.search(r'\.clear\(\)', ast.unparse(n.ast))]
-    if not unp:
-        raise AnalysisError('PGPKey.unlock no longer calls unprotect')
-    if not clr:
+    if not clr_calls:
         rep.violation('C06.1', 'PGPKey.unlock', 'no cleanup', 'nothing clears the secret material after the unlock scope', where=fi.where)
         return
-    clr_ids = set(n.id for n in clr)
-    # loop heads that iterate the cleanup: a path that enters the cleanup loop is considered to clear (the loop body is the clear)
-    clr_loops = set()
-    for n in g.nodes:
-        if n.kind == 'loop' and any(m in clr_ids for m, lab in g.succ[n.id] if lab == 'T'):
-            clr_loops.add(n.id)
-    through = clr_ids | clr_loops
+    want = _whole_key(fi)
+
+    def through_for(atom):
+        """CFG nodes that clear the key(s) `atom`: the statement making the call, and the loop whose every iteration makes it."""
+        ids = set()
+        for node, atoms, args, recv in clr_calls:
+            if atoms is None or atom not in atoms:
+                continue
+            ids |= set(n.id for n in _stmt_nodes_of(g, node))
+        for n in g.nodes:
+            if n.kind == 'loop':
+                for m, lab in g.succ[n.id]:
+                    if lab == 'T' and (m in ids or g.must_pass(ids, m, n.id)) and any(x in g.reachable(m) for x in ids):
+                        ids = ids | {n.id}
+        return ids
+    unp = []
+    for node, atoms, args, recv in unp_calls:
+        unp.extend(_stmt_nodes_of(g, node))
+    if not unp:
+        raise AnalysisError('PGPKey.unlock: the unprotect call is not made by a statement of unlock itself')
     for u in unp:
         for dst, what in ((g.exit.id, 'normal end of the scope'), (g.raise_exit.id, 'an exception (wrong passphrase on a later key, error in the with-body, generator close)')):
-            ok = g.must_pass(through, u.id, dst)
-            rep.check(ok, 'C06.1', 'PGPKey.unlock', 'unprotect at line %d -> %s' % (u.lineno, 'exit' if dst == g.exit.id else 'raise'),
+            ok = all(g.must_pass(through_for(a), u.id, dst) for a in sorted(want))
+            rep.check(ok, 'C06.1', 'PGPKey.unlock', 'unprotect -> %s' % ('exit' if dst == g.exit.id else 'raise'),
                       'after a key has been unprotected, %s can be reached without clearing the secret material' % what,
-                      where='%s:%d' % (fi.module.relpath, u.lineno), expected='every way out passes keymaterial.clear()',
+                      where='%s:%d' % (fi.module.relpath, u.lineno), expected='every way out passes keymaterial.clear() for the primary and every subkey',
                       found='a path from the unprotect call leaves the function without the cleanup')
-    ys = [n for n in g.nodes if n.kind == 'stmt' and n.ast is not None and any(isinstance(x, ast.Yield) for x in ast.walk(n.ast))]
+    ys = [n for n in g.nodes if n.kind == 'stmt' and n.ast is not None and any(isinstance(x, (ast.Yield, ast.YieldFrom)) for x in ast.walk(n.ast))]
     # the yield that hands out the unlocked key: the one reachable from an unprotect
     reach = set()
     for u in unp:
         reach |= g.reachable(u.id)
     hand = [y for y in ys if y.id in reach]
-    rep.check(len(hand) == 1, 'C06.1', 'PGPKey.unlock', 'yield after unprotect: %d' % len(hand), 'the unlocked key is handed out exactly once', where=fi.where)
+    rep.check(len(hand) >= 1, 'C06.1', 'PGPKey.unlock', 'yield after unprotect: %d' % len(set(y.lineno for y in hand)), 'the unlocked key is handed out', where=fi.where)
     for y in hand:
         for dst in (g.exit.id, g.raise_exit.id):
-            ok = g.must_pass(through, y.id, dst)
-            rep.check(ok, 'C06.1', 'PGPKey.unlock', 'yield at line %d -> %s' % (y.lineno, 'exit' if dst == g.exit.id else 'raise'),
+            ok = all(g.must_pass(through_for(a), y.id, dst) for a in sorted(want))
+            rep.check(ok, 'C06.1', 'PGPKey.unlock', 'yield -> %s' % ('exit' if dst == g.exit.id else 'raise'),
                       'when the unlock scope ends (normally or through an exception) the key must be locked again', where='%s:%d' % (fi.module.relpath, y.lineno))
-    # same iteration domain, and the thing cleared is the key material of each of them
-    def loop_iter_of(node):
-        for l in [n for n in ast.walk(fi.node) if isinstance(n, ast.For)]:
-            if any(x is node.ast for x in ast.walk(l)):
-                return ast.unparse(l.iter), ast.unparse(l.target)
-        return None, None
-    ui = sorted(set(loop_iter_of(u)[0] or '<no loop>' for u in unp))
-    ci_ = sorted(set(loop_iter_of(c)[0] or '<no loop>' for c in clr))
-    rep.check(ui == ci_ == ['itertools.chain([self], self.subkeys.values())'], 'C06.1', 'PGPKey.unlock', 'unprotect over %s, clear over %s' % (ui, ci_),
+    # same set of keys, and the thing cleared is the key material of each of them
+    def dom(calls):
+        out = set()
+        for node, atoms, args, recv in calls:
+            if atoms is None:
+                return None
+            out |= atoms
+        return out
+    ud, cd = dom(unp_calls), dom(clr_calls)
+    show = lambda d: sorted('%s%s' % ('' if k == 'one' else 'each of ', v) for k, v in d) if d is not None else 'not the key packets of a set of keys'  # noqa: E731
+    rep.check(ud == cd == want, 'C06.1', 'PGPKey.unlock', 'unprotect over %s, clear over %s' % (show(ud), show(cd)),
               'the cleanup must cover exactly the keys that were unprotected: the primary and every subkey', where=fi.where,
-              expected='itertools.chain([self], self.subkeys.values()) for both', found='%s / %s' % (ui, ci_))
-    for c in clr:
-        t = ast.unparse(c.ast)
-        var = loop_iter_of(c)[1]
-        rep.check(t == '%s._key.keymaterial.clear()' % var, 'C06.1', 'PGPKey.unlock', 'cleanup statement %s' % t,
-                  'the cleanup must clear the key material of each key', where='%s:%d' % (fi.module.relpath, c.lineno))
-    for u in unp:
-        t = ast.unparse(u.ast)
-        var = loop_iter_of(u)[1]
-        rep.check(t == '%s._key.unprotect(passphrase)' % var, 'C06.1', 'PGPKey.unlock', 'unprotect statement %s' % t,
-                  'each key is unprotected with the caller\'s passphrase', where='%s:%d' % (fi.module.relpath, u.lineno))
+              expected='%s for both' % show(want), found='%s / %s' % (show(ud), show(cd)))
+    for name, line in _one_shot_reuse(fi):
+        rep.violation('C06.1', 'PGPKey.unlock', 'iterator reused', 'the one-shot iterator %s is iterated a second time: the second loop (the cleanup) '
+                      'sees no keys' % name, where='%s:%d' % (fi.module.relpath, line))
+    for node, atoms, args, recv in clr_calls:
+        rep.check(atoms is not None and not args, 'C06.1', 'PGPKey.unlock', 'cleanup call %s.clear(%s)' % (alpha(recv), ', '.join(args)),
+                  'the cleanup must clear the key material of each key', where='%s:%d' % (fi.module.relpath, node.lineno))
+    for node, atoms, args, recv in unp_calls:
+        rep.check(atoms is not None and args == [pw], 'C06.1', 'PGPKey.unlock', 'unprotect call %s(%s)' % (alpha(recv), ', '.join(args)),
+                  'each key is unprotected with the caller\'s passphrase', where='%s:%d' % (fi.module.relpath, node.lineno))
     up = prog.method('pgpy.packet.packets', 'PrivKeyV4', 'unprotect')
-    rep.check('self.keymaterial.decrypt_keyblob(passphrase)' in ast.unparse(up.node), 'C06.1', 'PrivKeyV4.unprotect', 'delegates to decrypt_keyblob',
+    rep.saw(fn=up)
+    ups = Interp(prog, Scenario(inline=noinline)).run(up)
+    me, p1 = up.params[0], (up.params[1] if len(up.params) > 1 else None)
+    ok = bool(ups) and all(any(ft == '%s.keymaterial.decrypt_keyblob' % me and args == [p1] and not kw for ft, args, kw, l, n in s.calls)
+                           for s in ups if s.raised is None)
+    rep.check(ok, 'C06.1', 'PrivKeyV4.unprotect', 'delegates to decrypt_keyblob',
               'unprotect decrypts the key material with the passphrase', where=up.where)
 
 
@@ -122,19 +271,109 @@ def private_classes(prog):
     return base, [c for c in fields.classes.values() if c is not base and base in c.mro()]
 
 
+SECRET_CALLS = {'decrypt_keyblob', '_decrypt', '__privkey__', 'private_key', 'from_private_bytes', 'private_numbers', 'private_bytes',
+                'generate_private_key', 'generate'}
+
+
+def secret_stores(f, priv, allowed):
+    """Attribute stores `self.<attr> = v` (attr not in `allowed`) in function f whose value is derived from a secret: a private
+    field, the decrypted key blob, the library private-key object, or a local that was computed from one of those (def-use
+    closure over the function's locals, whatever they are called)."""
+    me = f.params[0] if f.params else None
+    if me is None:
+        return []
+    # names bound by iterating the private field names
+    field_iters = set()
+
+    def is_privfields(e):
+        return any(isinstance(n, ast.Attribute) and n.attr == '__privfields__' for n in ast.walk(e))
+    for n in ast.walk(f.node):
+        if isinstance(n, (ast.For, ast.comprehension)) and is_privfields(n.iter):
+            field_iters |= {x.id for x in ast.walk(n.target) if isinstance(x, ast.Name)}
+    tainted = set()
+
+    def secret(e):
+        for n in ast.walk(e):
+            if isinstance(n, ast.Attribute) and isinstance(n.value, ast.Name) and n.value.id == me and n.attr in priv and isinstance(n.ctx, ast.Load):
+                return True
+            if isinstance(n, ast.Call):
+                nm = n.func.attr if isinstance(n.func, ast.Attribute) else (n.func.id if isinstance(n.func, ast.Name) else None)
+                if nm in SECRET_CALLS:
+                    return True
+                if nm == 'getattr' and len(n.args) >= 2 and isinstance(n.args[0], ast.Name) and n.args[0].id == me:
+                    k = n.args[1]
+                    if (isinstance(k, ast.Constant) and k.value in priv) or (isinstance(k, ast.Name) and k.id in field_iters):
+                        return True
+            if isinstance(n, ast.Name) and isinstance(n.ctx, ast.Load) and n.id in tainted:
+                return True
+        return False
+
+    def names(t):
+        return {x.id for x in ast.walk(t) if isinstance(x, ast.Name) and isinstance(x.ctx, ast.Store)}
+    changed = True
+    while changed:
+        changed = False
+        for n in ast.walk(f.node):
+            new = set()
+            if isinstance(n, ast.Assign) and secret(n.value):
+                for t in n.targets:
+                    new |= names(t)
+            elif isinstance(n, (ast.AugAssign, ast.AnnAssign)) and n.value is not None and secret(n.value):
+                new |= names(n.target)
+            elif isinstance(n, ast.NamedExpr) and secret(n.value):
+                new |= names(n.target)
+            elif isinstance(n, (ast.For, ast.comprehension)) and secret(n.iter):
+                new |= names(n.target)
+            elif isinstance(n, ast.With):
+                for it in n.items:
+                    if it.optional_vars is not None and secret(it.context_expr):
+                        new |= names(it.optional_vars)
+            if new - tainted:
+                tainted |= new
+                changed = True
+    out = []
+    for n in ast.walk(f.node):
+        tv = []
+        if isinstance(n, ast.Assign):
+            tv = [(t, n.value) for t in n.targets]
+        elif isinstance(n, (ast.AugAssign, ast.AnnAssign)) and n.value is not None:
+            tv = [(n.target, n.value)]
+        elif isinstance(n, ast.Call) and isinstance(n.func, ast.Name) and n.func.id == 'setattr' and len(n.args) == 3 and \
+                isinstance(n.args[0], ast.Name) and n.args[0].id == me and isinstance(n.args[1], ast.Constant):
+            tv = [(ast.Attribute(value=n.args[0], attr=n.args[1].value, ctx=ast.Store()), n.args[2])]
+        for t, v in tv:
+            for x in (t.elts if isinstance(t, (ast.Tuple, ast.List)) else [t]):
+                if isinstance(x, ast.Attribute) and isinstance(x.value, ast.Name) and x.value.id == me and x.attr not in allowed and secret(v):
+                    out.append((n, x.attr))
+    return out
+
+
 def check_clear(rep, prog):
     base, privs = private_classes(prog)
     cl = base.methods.get('clear')
     if cl is None:
         raise AnalysisError('PrivKey.clear vanished')
     rep.saw(fn=cl)
-    loops = [n for n in ast.walk(cl.node) if isinstance(n, ast.For)]
-    ok = len(loops) == 1 and ast.unparse(loops[0].iter) == 'self.__privfields__'
-    body = ' ; '.join(ast.unparse(x) for x in loops[0].body) if loops else ''
-    var = ast.unparse(loops[0].target) if loops else 'field'
-    ok = ok and ('setattr(self, %s, MPI(0))' % var) in body
-    rep.check(ok, 'C06.2', 'PrivKey.clear', body or '<no loop>', 'clear() must overwrite every private field with the zero placeholder',
-              where=cl.where, expected='for field in self.__privfields__: setattr(self, field, MPI(0))', found=body)
+    me = cl.params[0]
+    # every returning path overwrites each private field (a loop / comprehension over __privfields__) with the zero placeholder
+    outs = Interp(prog, Scenario(inline=noinline)).run(cl)
+    ok = bool(outs)
+    found = []
+    for s in outs:
+        if s.raised is not None:
+            continue
+        hit = False
+        for ft, args, kw, line, node in s.calls:
+            if ft in ('setattr', '%s.__setattr__' % me, 'object.__setattr__') and not kw:
+                a = args[1:] if ft != '%s.__setattr__' % me else args
+                if ft != '%s.__setattr__' % me and args[:1] != [me]:
+                    continue
+                found.append('%s(%s)' % (ft, ', '.join(expand_bound(s, x) for x in args)))
+                if len(a) == 2 and a[0] in s.bound and s.bound[a[0]] in ('%s.__privfields__' % me, 'type(%s).__privfields__' % me) and a[1] == 'MPI(0)':
+                    hit = True
+        ok = ok and hit
+    rep.check(ok, 'C06.2', 'PrivKey.clear', 'zeroes %s' % (sorted(set(found)) or '<nothing>'), 'clear() must overwrite every private field with the zero placeholder',
+              where=cl.where, expected='for field in self.__privfields__: setattr(self, field, MPI(0)) on every path', found=sorted(set(found)))
     for c in privs:
         if c.name.startswith('Opaque'):
             continue
@@ -142,34 +381,38 @@ def check_clear(rep, prog):
         rep.check(own is cl, 'C06.2', '%s.clear' % c.name, 'resolves to %s' % (own.qualname if own else None),
                   'every private key-material class must use the clear() that covers all its private fields', where=c.where)
         pf = c.find_attr('__privfields__')
-        priv = set(ast.literal_eval(pf)) if pf is not None else set()
+        try:
+            priv = set(ast.literal_eval(pf)) if pf is not None else set()
+        except Exception:
+            raise AnalysisError('%s.__privfields__ is not a literal' % c.name)
         rep.check(bool(priv), 'C06.2', c.name, '__privfields__ = %s' % sorted(priv), 'a private class must declare its secret fields', where=c.where)
         # no secret-derived value may be kept in another attribute
         allowed_targets = priv | {'chksum', 'encbytes', 's2k', 'oid', 'kdf'} | set(_pubfields(c))
+        nscan = 0
         for k in c.mro():
             if k.module is not c.module:
                 continue
             for defs in k.all_defs.values():
                 for f in defs:
-                    p = f.params
-                    if not p:
-                        continue
-                    for n in ast.walk(f.node):
-                        if isinstance(n, ast.Assign):
-                            for t in n.targets:
-                                if isinstance(t, ast.Attribute) and isinstance(t.value, ast.Name) and t.value.id == p[0] and t.attr not in allowed_targets:
-                                    vt = ast.unparse(n.value)
-                                    secret = any(re.search(r'\b%s\.%s\b' % (p[0], x), vt) for x in priv) or '__privkey__' in vt or \
-                                        'private_key(' in vt or 'from_private_bytes' in vt or re.search(r'\bkb\b|\bpt\b', vt) is not None
-                                    rep.check(not secret, 'C06.2', '%s (via %s)' % (c.name, f.qualname), ast.unparse(n),
-                                              'a value derived from the secret integers is stored in attribute %s, which clear() does not wipe' % t.attr,
-                                              where='%s:%d' % (f.module.relpath, n.lineno), expected='secret values only in %s' % sorted(priv),
-                                              found=ast.unparse(n))
+                    for n, attr in secret_stores(f, priv, allowed_targets):
+                        rep.violation('C06.2', '%s (via %s)' % (c.name, f.qualname), 'secret kept in %s' % attr,
+                                      'a value derived from the secret integers is stored in attribute %s, which clear() does not wipe' % attr,
+                                      where='%s:%d' % (f.module.relpath, n.lineno), expected='secret values only in %s' % sorted(priv),
+                                      found=ast.unparse(n))
+                    nscan += 1
+        rep.ok('C06.2', c.name, 'no secret-derived value in an attribute outside the private fields (%d functions)' % nscan)
         # __privkey__ must build the library key on demand (no memo)
         pk = c.find_method('__privkey__')
         if pk is not None:
-            memo = [ast.unparse(n) for n in ast.walk(pk.node) if isinstance(n, (ast.Assign, ast.AugAssign)) and
-                    any(isinstance(t, ast.Attribute) for t in (n.targets if isinstance(n, ast.Assign) else [n.target]))]
+            memo = []
+            for n in ast.walk(pk.node):
+                if isinstance(n, (ast.Assign, ast.AugAssign, ast.AnnAssign)):
+                    for t in (n.targets if isinstance(n, ast.Assign) else [n.target]):
+                        for x in (t.elts if isinstance(t, (ast.Tuple, ast.List)) else [t]):
+                            if isinstance(x, (ast.Attribute, ast.Subscript)):
+                                memo.append(ast.unparse(n))
+                if isinstance(n, ast.Call) and (dotted(n.func) or '').split('.')[-1] in ('setattr', '__setattr__', 'setdefault', 'update'):
+                    memo.append(ast.unparse(n))
             glob = [ast.unparse(n) for n in ast.walk(pk.node) if isinstance(n, (ast.Global, ast.Nonlocal))]
             rep.check(not memo and not glob and not pk.node.decorator_list, 'C06.2', '%s.__privkey__' % pk.cls.name, 'memo %s' % (memo + glob),
                       'the library private-key object holds the secret integers; it must not be cached on the object', where=pk.where,
